@@ -183,13 +183,14 @@ def dispatchOne (sp : Spec) (w : World) (c : Cmd) : World :=
     match isJoin sp n with
     | some _ =>
       -- Task.defer: one execution per join (unique key); an existing one is put back to WAITING
+      -- and, being re-opened, loses the "processed" flag of its previous completion
       match findByName w n with
       | none =>
         { w with tasks := w.tasks ++ [newRow w c .WAITING],
                  pending := w.pending ++ [Item.postStartTask (n, 0) true] }
       | some r =>
         let w' : World :=
-          if r.state != .WAITING then { w with tasks := setTask w.tasks { r with state := .WAITING } } else w
+          if r.state != .WAITING then { w with tasks := setTask w.tasks { r with state := .WAITING, processed := false } } else w
         { w' with pending := w'.pending ++ [Item.postStartTask (r.name, r.occ) true] }
     | none =>
       { w with tasks := w.tasks ++ [newRow w c .IDLE],
